@@ -169,6 +169,7 @@ class LambdaFn:
 
     def __init__(self, ev: "Evaluator", node: ast.Lambda, env: dict[str, Any]):
         self.ev, self.node, self.env = ev, node, env
+        self.default_values = [ev.ev(d_, env) for d_ in node.args.defaults]  # evaluated when the lambda expression is (early binding idiom)
 
     def __call__(self, *args: Any) -> Any:
         a = self.node.args
@@ -184,7 +185,7 @@ class LambdaFn:
                 if i >= len(args):
                     if j < 0:
                         raise Refused("lambda argument missing")
-                    env[p_] = self.ev.ev(a.defaults[j], self.env)
+                    env[p_] = self.default_values[j]
         return self.ev.ev(self.node.body, env)
 
 
@@ -219,12 +220,14 @@ class Evaluator:
                 j = i - (len(params) - ndef)
                 if j < 0:
                     raise Refused(f"missing argument {p}")
-                bound[p] = self.ev(a.defaults[j], env)
-        for kw, d in zip(a.kwonlyargs, a.kw_defaults):
+                dv = getattr(f, "default_values", None)
+                bound[p] = dv[j] if dv is not None else self.ev(a.defaults[j], env)
+        for i_kw, (kw, d) in enumerate(zip(a.kwonlyargs, a.kw_defaults)):
             if kw.arg not in bound:
                 if d is None:
                     raise Refused(f"missing keyword {kw.arg}")
-                bound[kw.arg] = self.ev(d, env)
+                kdv = getattr(f, "kw_default_values", None)
+                bound[kw.arg] = kdv[i_kw] if kdv is not None else self.ev(d, env)
         env.update(bound)
         owner = getattr(f, "owner", None)
         if owner is not None and owner.mro_classes and params and args and isinstance(args[0], Sym):
@@ -488,7 +491,7 @@ class Evaluator:
             self._comp(e.generators, 0, dict(env), lambda en: outd.__setitem__(self.ev(e.key, en), self.ev(e.value, en)))
             return outd
         if isinstance(e, ast.Lambda):
-            return LambdaFn(self, e, dict(env))
+            return LambdaFn(self, e, env)  # the live frame: free variables are looked up when the lambda is called (late binding)
         if isinstance(e, ast.NamedExpr):
             v = self.ev(e.value, env)
             env[e.target.id] = v
@@ -688,7 +691,11 @@ class Evaluator:
                         raise Refused(f"import of {al.name}")
                     env[nm] = provided[nm]
             elif isinstance(st, ast.FunctionDef):
-                env[st.name] = UserFunc(st, env, closure=True)
+                uf = UserFunc(st, env, closure=True)
+                # default values are evaluated once, when the def statement runs (the early-binding idiom 'name=name')
+                uf.default_values = [self.ev(d_, env) for d_ in st.args.defaults]
+                uf.kw_default_values = [None if d_ is None else self.ev(d_, env) for d_ in st.args.kw_defaults]
+                env[st.name] = uf
             elif isinstance(st, ast.Nonlocal):
                 env["__nonlocal__"] = set(env.get("__nonlocal__", ())) | set(st.names)
             elif isinstance(st, ast.Expr) and isinstance(st.value, (ast.Yield, ast.YieldFrom)):
